@@ -189,11 +189,17 @@ class Builder:
             return self.has_cf(e.get("tail"))
         if k in ("call", "mcall") and self._inline_target(e) is not None:
             return True
+        if k == "call":
+            f_ = H.strip(e.get("f"))
+            if isinstance(f_, dict) and f_.get("k") in ("closure", "local"):
+                return True          # a call through a closure (literal or bound to a local): inlined
+        if k in ("call", "mcall") and _combinator_of(e) is not None:
+            return True
         if k == "mcall" and str(e.get("def", "")).startswith("phf::") and e.get("name") == "get":
             return True
         if k == "mcall" and e.get("def") == "core::str::<impl str>::strip_prefix":
             return True
-        if k == "mcall" and str(e.get("def", "")).startswith("core::slice::<impl [T]>::binary_search"):
+        if k == "mcall" and str(e.get("def", "")).startswith(("core::slice::<impl [T]>::binary_search", "core::slice::<impl [T]>::get")):
             return True
         if k == "bin" and e.get("op") in ("&&", "||"):
             return True
@@ -243,6 +249,9 @@ class Builder:
 
     def role(self, v: Any) -> Optional[str]:
         v = peel(v)
+        # `s.as_bytes()`: the same input seen as bytes (comparisons with byte-string literals are comparisons of s)
+        if isinstance(v, dict) and v.get("k") == "mcall" and v.get("def") == "core::str::<impl str>::as_bytes" and not v.get("args"):
+            return self.role(v.get("recv"))
         if isinstance(v, dict) and v.get("k") == "local" and "frame" not in v and v.get("param") is not None:
             return self.roles.get(v["param"])
         return None
@@ -361,6 +370,8 @@ class Builder:
         if isinstance(v, dict):
             if v.get("k") == "lit" and v.get("ty") == "str":
                 return v.get("v")
+            if v.get("k") == "lit" and v.get("ty") == "bytes" and v.get("v") is not None:
+                return v.get("v")           # a byte string that is valid UTF-8
             if v.get("k") == "path" and str(v.get("dk", "")).startswith("Const") and v.get("lit_str") is not None:
                 return v["lit_str"]
         return None
@@ -422,6 +433,13 @@ class Builder:
         if k == "try":
             # `place?` on a Result stored in a place: Ok -> payload, Err -> return Err(payload)
             def q(v, f1):
+                vdef_, vargs_ = _ctor_value(H.strip(v))
+                if vdef_ in (SOME, OK):
+                    return kont(vargs_[0], f1)
+                if vdef_ == NONE:
+                    return f1.retk(H.strip(v), f1)
+                if vdef_ == ERR:
+                    return f1.retk(H.strip(v), f1)
                 pk = place_key(v)
                 if pk is None:
                     raise Unrecognised("`?` on something that is not a field of a parameter: " + H.brief(v, 80), e)
@@ -494,6 +512,19 @@ class Builder:
     def after_children(self, node: dict, fr: Frame, kont) -> Any:
         node = self.subst_shallow(node, fr)
         k = node.get("k")
+        if k == "call":
+            f_ = H.strip(node.get("f"))
+            if isinstance(f_, dict) and f_.get("k") == "local":
+                f_ = H.strip(self.subst(f_, fr))
+            while isinstance(f_, dict) and f_.get("k") in ("ref", "deref"):
+                f_ = H.strip(f_["e"])
+            if isinstance(f_, dict) and f_.get("k") == "closure":
+                return self.call_closure(f_, list(node["args"]), fr, kont, node)
+        comb = _combinator_of(node)
+        if comb is not None:
+            folded = self.combinator(comb, node, fr, kont)
+            if folded is not None:
+                return folded
         # inline helper fns
         tgt = self._inline_target(node)
         if tgt is not None:
@@ -550,6 +581,23 @@ class Builder:
                     return kont({"k": "call", "f": co[0], "args": [inner]}, fr)
                 if isinstance(recv, dict) and recv.get("k") == "path" and recv.get("def") == NONE:
                     return kont(recv, fr)
+            # ARR.get(i) on a constant array: Some(&elem) / None
+            if node["name"] == "get" and d.startswith("core::slice::<impl [T]>::get") and len(node["args"]) == 1:
+                arr = self.array_of(recv)
+                if arr is not None:
+                    some_p = {"k": "path", "def": SOME, "dk": "Ctor(Variant, Fn)", "written": "Some", "variant": "Some", "adt": "core::option::Option"}
+                    none_p = {"k": "path", "def": NONE, "dk": "Ctor(Variant, Const)", "written": "None", "variant": "None", "adt": "core::option::Option"}
+                    n_ = self.int_value(node["args"][0])
+                    if n_ is not None:
+                        if 0 <= n_ < len(arr["elems"]):
+                            return kont({"k": "call", "f": some_p, "args": [{"k": "ref", "e": arr["elems"][n_]}]}, fr)
+                        return kont(none_p, fr)
+                    ie_ = self.int_expr(node["args"][0])
+                    if ie_ is not None and "int" in self.roles.values():
+                        tree = kont(none_p, fr)
+                        for i_ in reversed(range(len(arr["elems"]))):
+                            tree = self.br(("intx", ie_, "==", i_), kont({"k": "call", "f": some_p, "args": [{"k": "ref", "e": arr["elems"][i_]}]}, fr), tree, None)
+                        return tree
             # TABLE.binary_search_by(|e| key(e).cmp(s)) / TABLE.binary_search(&s) over a constant table of string keys
             if node["name"] in ("binary_search_by", "binary_search") and d.startswith("core::slice::<impl [T]>::binary_search"):
                 folded = self.binary_search(node, fr, kont)
@@ -568,6 +616,110 @@ class Builder:
     def subst_shallow(self, node: dict, fr: Frame) -> dict:
         # children are already substituted values; paths / literals at this level need nothing
         return node
+
+    def call_closure(self, clo: dict, args: list, fr: Frame, kont, node: Any) -> Any:
+        """Inline a call of a closure value: parameters are bound to the arguments, captured locals were substituted when the
+        closure value was built, `return` inside the closure returns from the closure."""
+        params = clo.get("params", [])
+        if len(params) != len(args):
+            raise Unrecognised("closure called with %d arguments, takes %d" % (len(args), len(params)), node)
+        if len(fr.stack) > 8:
+            raise Unrecognised("closures nested too deeply", node)
+        outer = fr
+
+        def back(v, inner):
+            return kont(v, outer.carry(inner))
+        f1 = Frame(fr.env, fr.fid, back, fr.stack + ("<closure>",), fr.vpats, fr.effects)
+
+        def bind_all(i, f2):
+            if i == len(params):
+                return self.build(clo["body"], f2, back)
+            return self.match_pat(params[i], args[i], f2, lambda f3: bind_all(i + 1, f3), lambda _f: _refutable(node))
+        return bind_all(0, f1)
+
+    def combinator(self, comb: Tuple[str, str], node: dict, fr: Frame, kont) -> Optional[Any]:
+        """Option / Result / bool combinators over a receiver whose constructor is known on this path."""
+        fam, name = comb
+        args = ([node["recv"]] + list(node["args"])) if node.get("k") == "mcall" else list(node["args"])
+        if not args:
+            return None
+        recv = H.strip(args[0])
+        rest = args[1:]
+        some = lambda x: {"k": "call", "f": {"k": "path", "def": SOME, "dk": "Ctor(Variant, Fn)", "written": "Some", "variant": "Some", "adt": "core::option::Option"}, "args": [x]}
+        none = {"k": "path", "def": NONE, "dk": "Ctor(Variant, Const)", "written": "None", "variant": "None", "adt": "core::option::Option"}
+        okc = lambda x: {"k": "call", "f": {"k": "path", "def": OK, "dk": "Ctor(Variant, Fn)", "written": "Ok", "variant": "Ok", "adt": "core::result::Result"}, "args": [x]}
+        errc = lambda x: {"k": "call", "f": {"k": "path", "def": ERR, "dk": "Ctor(Variant, Fn)", "written": "Err", "variant": "Err", "adt": "core::result::Result"}, "args": [x]}
+
+        def apply(fv, xs, k2):
+            fv0 = H.strip(fv)
+            while isinstance(fv0, dict) and fv0.get("k") in ("ref", "deref"):
+                fv0 = H.strip(fv0["e"])
+            if isinstance(fv0, dict) and fv0.get("k") == "closure":
+                return self.call_closure(fv0, xs, fr, k2, node)
+            if isinstance(fv0, dict) and fv0.get("k") == "path":
+                return self.build({"k": "call", "f": fv0, "args": xs}, fr, k2)
+            raise Unrecognised("combinator argument is not a closure or a function path", node)
+        if fam == "bool":
+            if name == "then_some" and len(rest) == 1:
+                return self.cond_value(recv, fr, lambda f1: kont(some(rest[0]), f1), lambda f1: kont(none, f1), node)
+            if name == "then" and len(rest) == 1:
+                return self.cond_value(recv, fr, lambda f1: apply(rest[0], [], lambda v, f2: kont(some(v), f2)), lambda f1: kont(none, f1), node)
+            return None
+        vdef, vargs = _ctor_value(recv)
+        if vdef is None:
+            return None
+        is_some, is_none, is_ok, is_err = vdef == SOME, vdef == NONE, vdef == OK, vdef == ERR
+        x = vargs[0] if vargs else None
+        if fam == "option" and (is_some or is_none):
+            if name == "or_else" and len(rest) == 1:
+                return kont(recv, fr) if is_some else apply(rest[0], [], kont)
+            if name == "or" and len(rest) == 1:
+                return kont(recv if is_some else rest[0], fr)
+            if name == "and_then" and len(rest) == 1:
+                return apply(rest[0], [x], kont) if is_some else kont(none, fr)
+            if name == "map" and len(rest) == 1:
+                return apply(rest[0], [x], lambda v, f2: kont(some(v), f2)) if is_some else kont(none, fr)
+            if name == "map_or" and len(rest) == 2:
+                return apply(rest[1], [x], kont) if is_some else kont(rest[0], fr)
+            if name == "map_or_else" and len(rest) == 2:
+                return apply(rest[1], [x], kont) if is_some else apply(rest[0], [], kont)
+            if name == "unwrap_or" and len(rest) == 1:
+                return kont(x if is_some else rest[0], fr)
+            if name == "unwrap_or_else" and len(rest) == 1:
+                return kont(x, fr) if is_some else apply(rest[0], [], kont)
+            if name == "ok_or" and len(rest) == 1:
+                return kont(okc(x) if is_some else errc(rest[0]), fr)
+            if name == "ok_or_else" and len(rest) == 1:
+                return kont(okc(x), fr) if is_some else apply(rest[0], [], lambda v, f2: kont(errc(v), f2))
+            if name == "filter" and len(rest) == 1:
+                if is_none:
+                    return kont(none, fr)
+                return apply(rest[0], [{"k": "ref", "e": x}], lambda v, f2: self.cond_value(v, f2, lambda f3: kont(recv, f3), lambda f3: kont(none, f3), node))
+            if name in ("is_some", "is_none") and not rest:
+                return kont({"k": "lit", "ty": "bool", "v": is_some == (name == "is_some")}, fr)
+            if name in ("copied", "cloned") and not rest:
+                if is_none:
+                    return kont(none, fr)
+                inner = H.strip(x)
+                return kont(some(inner["e"] if isinstance(inner, dict) and inner.get("k") == "ref" else inner), fr)
+        if fam == "result" and (is_ok or is_err):
+            if name == "ok" and not rest:
+                return kont(some(x) if is_ok else none, fr)
+            if name == "err" and not rest:
+                return kont(some(x) if is_err else none, fr)
+            if name == "map" and len(rest) == 1:
+                return apply(rest[0], [x], lambda v, f2: kont(okc(v), f2)) if is_ok else kont(recv, fr)
+            if name == "map_err" and len(rest) == 1:
+                return apply(rest[0], [x], lambda v, f2: kont(errc(v), f2)) if is_err else kont(recv, fr)
+            if name == "and_then" and len(rest) == 1:
+                return apply(rest[0], [x], kont) if is_ok else kont(recv, fr)
+            if name == "or_else" and len(rest) == 1:
+                return kont(recv, fr) if is_ok else apply(rest[0], [x], kont)
+            if name == "unwrap_or" and len(rest) == 1:
+                return kont(x if is_ok else rest[0], fr)
+            if name in ("is_ok", "is_err") and not rest:
+                return kont({"k": "lit", "ty": "bool", "v": is_ok == (name == "is_ok")}, fr)
+        return None
 
     def binary_search(self, node: dict, fr: Frame, kont) -> Optional[Any]:
         """`Ok(i)` iff the input equals key i of a constant table that is strictly ascending in the comparator's order (plain
@@ -595,7 +747,7 @@ class Builder:
                 q = q["pat"]
             if isinstance(q, dict) and q.get("k") == "bind":
                 pid = q["id"]
-            elif isinstance(q, dict) and q.get("k") == "ptup":
+            elif isinstance(q, dict) and q.get("k") == "ptuple":
                 for i_, sp_ in enumerate(q.get("pats", [])):
                     b_ = H.binding(sp_)
                     if b_ is not None:
@@ -785,7 +937,7 @@ class Builder:
             return None
         if k == "mcall":
             d = v.get("def")
-            if d == EQ_ICASE and len(v["args"]) == 1:
+            if d in (EQ_ICASE, "core::slice::ascii::<impl [u8]>::eq_ignore_ascii_case") and len(v["args"]) == 1:
                 a, b = v["recv"], v["args"][0]
                 for x, y in ((a, b), (b, a)):
                     if self.role(x) == "str" and self.str_const(y) is not None:
@@ -875,6 +1027,10 @@ class Builder:
             lit = p["lit"]
             if role == "str" and lit.get("ty") == "str":
                 return self.br(("seq", lit["v"]), tk(fr), fk(fr), p)
+            if role == "str" and lit.get("ty") == "bytes":
+                if lit.get("v") is None:
+                    return fk(fr)           # bytes that are not UTF-8 equal no &str
+                return self.br(("seq", lit["v"]), tk(fr), fk(fr), p)
             if self.suffix_of(pv) is not None and lit.get("ty") == "str":
                 # on this path s starts with the prefix: rest == "lit"  <=>  s == prefix + "lit"
                 return self.br(("seq", self.suffix_of(pv) + lit["v"]), tk(fr), fk(fr), p)
@@ -956,7 +1112,7 @@ class Builder:
             n = self.int_const(p["path"])
             if n is not None and (role == "int" or self.is_strlen(pv)):
                 return self.br(("int" if role == "int" else "slen", "==", n), tk(fr), fk(fr), p)
-        if k == "ptup" and isinstance(pv, dict) and pv.get("k") == "tup" and len(pv["elems"]) == len(p.get("pats", [])):
+        if k == "ptuple" and isinstance(pv, dict) and pv.get("k") == "tup" and len(pv["elems"]) == len(p.get("pats", [])):
             return self._match_all(list(zip(p["pats"], pv["elems"])), fr, tk, fk)
         raise Unrecognised("pattern not understood: " + H.render_pat(p), p)
 
@@ -1003,9 +1159,18 @@ PURE_CRATES = ("core", "alloc", "std", "phf", "phf_shared", "strum")
 def effectful(v: Any) -> bool:
     """Does evaluating v call into user code (a path call whose callee lives outside core/alloc/std/phf/strum)?
     Trait methods of core (Default::default, Into::into, Clone::clone ..) are taken as pure."""
-    for n in H.walk(v):
-        if n.get("k") == "closure":
-            continue
+    def nodes(e):
+        # a closure value is not evaluated where it is written
+        if isinstance(e, dict):
+            if e.get("k") == "closure":
+                return
+            yield e
+            for x in e.values():
+                yield from nodes(x)
+        elif isinstance(e, list):
+            for x in e:
+                yield from nodes(x)
+    for n in nodes(v):
         if n.get("k") == "call":
             f = H.strip(n.get("f"))
             if isinstance(f, dict) and f.get("k") == "path" and f.get("crate") and f.get("crate") not in PURE_CRATES and not str(f.get("dk", "")).startswith("Ctor"):
@@ -1014,6 +1179,33 @@ def effectful(v: Any) -> bool:
             if n.get("crate") and n.get("crate") not in PURE_CRATES:
                 return True
     return False
+
+
+COMBINATORS = {
+    "option": ("or_else", "or", "and_then", "map", "map_or", "map_or_else", "unwrap_or", "unwrap_or_else", "ok_or", "ok_or_else", "filter", "is_some", "is_none", "copied", "cloned"),
+    "result": ("ok", "err", "map", "map_err", "and_then", "or_else", "unwrap_or", "is_ok", "is_err"),
+    "bool": ("then_some", "then"),
+}
+
+
+def _combinator_of(e: dict) -> Optional[Tuple[str, str]]:
+    d = None
+    if e.get("k") == "mcall":
+        d = str(e.get("def") or "")
+    elif e.get("k") == "call":
+        f_ = H.strip(e.get("f"))
+        if isinstance(f_, dict) and f_.get("k") == "path":
+            d = str(f_.get("def") or "")
+    if not d:
+        return None
+    name = d.split("::")[-1]
+    if d.startswith("core::option::Option") and name in COMBINATORS["option"]:
+        return ("option", name)
+    if d.startswith("core::result::Result") and name in COMBINATORS["result"]:
+        return ("result", name)
+    if d.startswith("core::bool::<impl bool>") and name in COMBINATORS["bool"]:
+        return ("bool", name)
+    return None
 
 
 def place_key(v: Any) -> Optional[tuple]:
